@@ -182,7 +182,9 @@ class WeightedForest(Forest):
     def partition(self, threshold):
         """ Partition the tree according to a cut criterion
         """
-        valid = self.height < threshold
+        # the leaves are always kept: a threshold that is not above their height
+        # yields one cluster per leaf
+        valid = (self.height < threshold) | self.isleaf()
         f = self.subforest(valid)
         u = f.cc()
         return u[f.isleaf()]
